@@ -281,6 +281,18 @@ def monitor_dialogview(case, obs):
     w = case["w"]
     for l in obs.get("lines") or []:
         if len(l.rstrip(" ")) > w: return "%s dialog, width %d: line %r is longer" % (case["kind"], w, l)
+    if "lines" in obs:
+        # exactly its content: the title, then the message (the documented default where none is given), nothing else and nothing twice - however often it was refreshed
+        title = {"error": "Error", "password": "Password", "yesno": "Question", "help": "Help"}.get(case["kind"])
+        msg = case["msg"]
+        if case["kind"] == "password" and not msg: msg = "Enter your passphrase"
+        if case["kind"] == "help" and msg is None: msg = "The help is not available."
+        want = "" if title is None else "".join((title + msg).split())
+        got = "".join("".join(obs["lines"]).split())
+        if case["kind"] in ("getinput", "getpassinput"):
+            if obs["lines"]: return "the input screen shows %r in its window" % obs["lines"][:3]
+        elif obs.get("title") != title: return "%s dialog has the title %r" % (case["kind"], obs.get("title"))
+        elif got != want: return "%s dialog (refreshed %d times) shows %r; its title and message are %r / %r" % (case["kind"], case.get("refreshes", 1), obs["lines"][:6], title, msg)
     if case["kind"] in PROMPTS and obs["prompt"] != PROMPTS[case["kind"]]: return "%s dialog: prompt %r, documented %r" % (case["kind"], obs["prompt"], PROMPTS[case["kind"]])
     if case["kind"] in ("getinput", "getpassinput"):
         exp = (case["msg"] + ": ") if case["msg"] else ""
